@@ -264,7 +264,36 @@ func (w *World) checkC49() {
 					holds = append(holds, h)
 					hi := len(holds) - 1
 					mu.Unlock()
-					simrt.Sleep(time.Duration(r.Intn(6000))*time.Millisecond, "h:critical-section")
+					// a long critical section: the holder (certmagic does this for long issuances) also asks for
+					// the lease to be renewed explicitly, while the storage's own renewal loop keeps running
+					crit := time.Duration(r.Intn(6000)) * time.Millisecond
+					if r.Chance(0.5) {
+						stop := make(chan struct{})
+						renewed := make(chan struct{})
+						simrt.GoGroup("h:explicit-renewal", "", func() {
+							defer close(renewed)
+							for {
+								select {
+								case <-stop:
+									simrt.Yield("h:renewal-stop")
+									return
+								case <-time.After(time.Duration(100+r.Intn(900)) * time.Millisecond):
+									simrt.Yield("h:renewal-tick")
+								}
+								if err := s.RenewLockLease(w.ctx, "issue/shared", time.Duration(2+r.Intn(4))*time.Second); err != nil {
+									simrt.Probe("explicit-renewal-error")
+								} else {
+									simrt.Probe("explicit-renewal")
+								}
+							}
+						})
+						simrt.Sleep(crit, "h:critical-section")
+						close(stop)
+						<-renewed
+						simrt.Yield("h:renewals-done")
+					} else {
+						simrt.Sleep(crit, "h:critical-section")
+					}
 					mu.Lock()
 					holds[hi].release = simrt.Stamp()
 					mu.Unlock()
